@@ -209,6 +209,8 @@ class HttpPeer:
         w.log("request", None, (self.name, r.sid, r.method, r.target, len(r.body)))
         if r.method == "CONNECT" and self.role == "proxy":
             spec = w.next_connect(self, r)
+            if not (spec.get("k", "resp") == "resp" and int(spec.get("status", 200)) == 200):
+                w.attempts.append(("other", "connect-refused", self.chan.sid, "CONNECT", spec.get("status")))
             self._connect(spec, r)
             return
         spec = w.next_exchange(self, r)
@@ -220,8 +222,17 @@ class HttpPeer:
         k = spec.get("k", "resp")
         delay = float(spec.get("delay", 0.0))
         w.log("respond", None, (self.name, chan.sid, k, spec.get("status", 200) if k == "resp" else None))
+        category = exchange_category(spec)
         if k in ("resp", "raw"):
             data, keep, body = build_response(spec, r, r.idx if r is not None else -1)
+            if spec.get("cut_body") is not None:  # cut point counted from the first payload byte
+                spec = dict(spec)
+                spec["cut"] = data.find(b"\r\n\r\n") + 4 + int(spec.pop("cut_body"))
+            if spec.get("cut") is not None and int(spec["cut"]) >= len(data):
+                category = "response"  # the cut point lies beyond the end: nothing was cut
+                spec = {x: y for x, y in spec.items() if x != "cut"}
+            if r is not None and r.method != "CONNECT":
+                w.attempts.append((category, k, chan.sid, r.method, int(spec.get("status", 200)) if k == "resp" else None))
             if r is not None:
                 w.answers[r.idx] = (int(spec.get("status", 200)) if k == "resp" else None, body, chan.sid, list(spec.get("interim") or []))
             cut = spec.get("cut")
@@ -264,20 +275,28 @@ class HttpPeer:
                 self.dead = True
                 w.faults_fired["resp:idle_close"] += 1
         elif k == "eof":
+            if r is not None and r.method != "CONNECT":
+                w.attempts.append((category, k, chan.sid, r.method, None))
             w.faults_fired["resp:eof"] += 1
             chan.peer_eof(delay)
             self.dead = True
         elif k == "rst":
+            if r is not None and r.method != "CONNECT":
+                w.attempts.append((category, k, chan.sid, r.method, None))
             w.faults_fired["resp:rst"] += 1
             chan.peer_rst(delay)
             self.dead = True
         elif k == "garbage":
+            if r is not None and r.method != "CONNECT":
+                w.attempts.append((category, k, chan.sid, r.method, None))
             w.faults_fired["resp:garbage"] += 1
             chan.peer_push(_stray_bytes(spec.get("data", "\x00\x01garbage\r\n\r\n")), delay)
             if spec.get("end", "eof") == "eof":
                 chan.peer_eof(delay)
             self.dead = True
         elif k == "stall":
+            if r is not None and r.method != "CONNECT":
+                w.attempts.append((category, k, chan.sid, r.method, None))
             w.faults_fired["resp:stall"] += 1
             self.dead = True
         else:
@@ -312,6 +331,15 @@ class HttpPeer:
         self.client_closed = True
         if self.tunnel is not None:
             self.tunnel.on_client_close()
+
+
+def exchange_category(spec: dict) -> str:
+    k = spec.get("k", "resp")
+    if k in ("eof", "rst", "stall", "garbage"):
+        return "read"
+    if spec.get("cut") is not None or spec.get("cut_body") is not None:
+        return "read"
+    return "response"
 
 
 def _stray_bytes(s) -> bytes:
